@@ -65,6 +65,7 @@ type World struct {
 	fninfo      map[*ssa.Function]*FnInfo
 	callerIdx   map[*ssa.Function][]ssa.CallInstruction
 	errClsBusy  map[*ssa.Function]bool
+	resBusy     map[*ssa.Function]bool
 	embeddedNames map[string]bool
 }
 
